@@ -972,6 +972,10 @@ func NewEnum(config EnumConfig) *Enum {
 	if gt.values, gt.err = gt.defineEnumValues(config.Values); gt.err != nil {
 		return gt
 	}
+	// Build the lookup tables up front: they are read concurrently by
+	// Serialize/ParseValue/ParseLiteral during execution.
+	gt.getValueLookup()
+	gt.getNameLookup()
 
 	return gt
 }
